@@ -20,7 +20,7 @@ from simkit import gen, launch, pipe
 from simkit.kernel import EventLog, Forks, HarnessError, RunStats, Violation, digest, sub_rng
 
 SPEC = {
-    "C08": dict(engine="gibbssim", level="exploration", runs=dict(quick=1500, thorough=30000), chunk=10, run_timeout=900,
+    "C08": dict(engine="gibbssim", level="exploration", runs=dict(quick=1500, thorough=15000), chunk=10, run_timeout=900,
                 rule="per run: one training set (combination and single-agent rows, treatments in first / second / both positions "
                      "across rows, samples and treatments without data, no self-pairs), embedding size 1-4, 1-5 sampler steps (thorough "
                      "up to 30) under the RNG seam, with numeric.cholesky and rng.extreme faults in a share of runs; every draw event is "
